@@ -397,7 +397,9 @@ pub fn tokens(e: &Expr, mode: Mode, d: Option<&mut Dec>) -> Option<Vec<Tok>> {
 // ------------------------------------------------------------------------------------------
 // layout
 
-const SEPARATORS: [&str; 18] = [
+const SEPARATORS: [&str; 24] = [
+    // comments are free text: brackets, quotes and comment-like marks inside them mean nothing
+    "// 1) first (see below\n", "// \"\n", "// ]}\n", "// it's /* not */ special\n", "// */\r\n", "//)\n",
     " ", "", " ", "\n", "\t", "  ", "\r\n", " \n ", "\u{a0}", "\u{2003}", "\u{85}", "\u{c}", "// c\n", " // if then (\n\t",
     "//\r\n", "\r", "// c\r", "//\r\r",
 ];
